@@ -38,6 +38,10 @@ def main():
         try:
             r = sh('git -C %s apply %s' % (wt, os.path.join(VERIF, 'seeded', name, 'patch.diff')))
             if r.returncode:
+                # the tree has moved on since the change was made (later fix: commits): three-way merge
+                r = sh('git -C %s apply --3way %s && ! grep -rl "^<<<<<<< " %s/src' % (wt, os.path.join(VERIF, 'seeded', name, 'patch.diff'), wt))
+                sh('git -C %s reset -q' % wt)
+            if r.returncode:
                 print(name, 'PATCH DOES NOT APPLY', r.stderr[:200])
                 res.setdefault(name, {})['_patch'] = 'does not apply'
                 continue
